@@ -1,4 +1,4 @@
-CONSTANTS Alphabet = {10, 13, 62, 65} MaxLen = 5 Caps = {3,4,5,6,7} GrowLimit = 16 MaxOps = 4
+CONSTANTS Alphabet = {10, 13, 62, 65} MaxLen = 5 Caps = {3,4,5,6,7} GrowLimit = 16 MaxOps = 4 MaxFail = 3
 SPECIFICATION Spec
 INVARIANT Refines
 CHECK_DEADLOCK FALSE
